@@ -87,17 +87,20 @@ hc_prop("C02",
 
 hc_prop("C05",
     lambda tier: [hc("ideal", 2500, 100000, tier, "C05", packets=T(tier, 300, 1500)),
-                  dict(family="ep-ideal", n=T(tier, 150, 6000), params={})],
-    GEN + "ideal family: no faults, constant latency per direction, bursts above window / allocation / flush budget, both directions. ep-ideal: a real Client and Server configured independently (what each may send 100 B..1 MB, what each can hold 3 kB..1 MB, rates 0.1..10 MB/s: each end has to use the OTHER's advertised allowance), ideal network, both applications submitting up to 1500 packets of every mode in bursts of up to 200 per step, until both ends report nothing pending. non-trivial: >= 50 packets delivered (ep-ideal: finished with >= 100 packets).",
+                  dict(family="ep-ideal", n=T(tier, 150, 6000), params={}),
+                  dict(family="frag-max", n=T(tier, 14, 200), params={"prop": "C05"}, scalable=False)],
+    GEN + "frag-max (ideal form): one packet from the top of the legal range (MAX_PACKET_SIZE = 65536 fragments, MAX-1, the fragment-count boundaries below, 5..95 MB) over a loss-free link. ideal family: no faults, constant latency per direction, bursts above window / allocation / flush budget, both directions. ep-ideal: a real Client and Server configured independently (what each may send 100 B..1 MB, what each can hold 3 kB..1 MB, rates 0.1..10 MB/s: each end has to use the OTHER's advertised allowance), ideal network, both applications submitting up to 1500 packets of every mode in bursts of up to 200 per step, until both ends report nothing pending. non-trivial: >= 50 packets delivered (ep-ideal: finished with >= 100 packets).",
     "Equality oracle: delivered sequence (all channels) must be the submission sequence minus TimeSensitive packets; a fully transmitted TimeSensitive packet must not be skipped; at quiescence every non-TimeSensitive packet delivered exactly once; a scenario that stops making progress with a backlog (the progress monitor's stall signature) counts as packets not delivered. Endpoint level: each application's Receive events are exactly the other's submissions in order, TimeSensitive ones possibly missing.",
     "sequence-equality oracle over fault-free executions",
-    dict(quick=800, thorough=20000), require=["deliveries"],
-    also=["C02:stall", "C11:stall"])
+    dict(quick=800, thorough=20000), require=["deliveries", "single_packet_max_packet_size"],
+    also=["C02:stall", "C11:stall", "C04:packet-not-reassembled"])
 
 hc_prop("C12",
     lambda tier: [hc("faulty", 2000, 80000, tier, "C12"),
                   hc("rate", 600, 20000, tier, "C12"),
                   hc("ideal", 400, 10000, tier, "C12"),
+                  hc("frag", 500, 20000, tier, "C12", frag_packets=T(tier, 40, 120)),
+                  dict(family="frag-len", n=T(tier, 400, 20000), params={"prop": "C12", "first": 5795}, scalable=False),
                   dict(family="solo-api", n=T(tier, 300, 10000), params={"batch": 10, "ops": 400}),
                   dict(family="lifecycle", n=T(tier, 300, 10000), params={})],
     GEN + "lifecycle (real Client / Server): packets of every mode handed to Client::send() while the client is still connecting; a TimeSensitive one among them must never reach the server application. solo-api: one real sending HalfConnection driven through its API in arbitrary call order (send / step after 0, 0.3, 0.9, 1, 5, 33 ms / flush / honest acknowledgements after a simulated round trip, drawn at random: step() twice in a row, twice within one millisecond, sends between step and flush, several flushes or none), the same boundary model following along. non-trivial: >= 1 fragment retransmitted and >= 1 ack group processed (solo-api: >= 5 steps less than 1 ms apart, >= 3 TimeSensitive packets, >= 3 ack frames).",
@@ -190,7 +193,8 @@ PROPS["C03"] = dict(
                        dict(family="fault-then-fair", n=T(tier, 300, 10000), params={}, flavour="checked"),
                        dict(family="ideal", n=T(tier, 200, 10000), params={}, flavour="checked"),
                        dict(family="rate", n=T(tier, 200, 10000), params={}, flavour="checked"),
-                       dict(family="ack-twin", n=T(tier, 150, 5000), params={}, flavour="checked")],
+                       dict(family="ack-twin", n=T(tier, 150, 5000), params={}, flavour="checked"),
+                       dict(family="frag-max", n=T(tier, 8, 100), params={"prop": "C03"}, flavour="checked", scalable=False)],
     rule=("hostile-hc / hostile-rx: a real HalfConnection (windows 4..4096, nonces near wrap) receives CRC-valid frames composed against its live windows - every id from "
           "{base, base+-1, base+W, base+W+-1, next, 2^20 aliases, high bits set, random}, fragment ids/counts {0,1,last,last+1,65535}, leads {0,1,65535,..}, ack bitfields "
           "{0,1,0x80000001,~0}, random bytes with a valid CRC, mutated copies of the victim's own frames - interleaved with send/step/flush/receive at spacings 0..5000 ms; all input "
@@ -199,7 +203,7 @@ PROPS["C03"] = dict(
     level_text="Crash/hang oracle: catch_unwind + panic hook around every call into uflow, a wall-clock watchdog (10 s per call, 120 s confirmation re-run) for non-returning calls, process exit status for aborts. Endpoint-level hostile peers (Server/Client) are covered by the epsim families listed under C07/C18.",
     level_note="Trusted: the watchdog thresholds (a single call legitimately takes micro- to milliseconds). Only inputs the generators produce are judged.",
     technique="panic/hang monitor under generated hostile frames, release and debug-assertion builds",
-    floor=dict(quick=1500, thorough=50000), require_counters=["hostile_frames", "handled_data", "handled_acks", "handled_sync", "srcomp_steps"],
+    floor=dict(quick=1500, thorough=50000), require_counters=["hostile_frames", "handled_data", "handled_acks", "handled_sync", "srcomp_steps", "victims_accepting_max_packet_size", "single_packet_max_packet_size"],
     assumptions=["API misuse the documentation forbids (oversized send, bad channel, invalid config) is never generated"])
 
 def MIRI_RUNS(tier):
@@ -273,9 +277,9 @@ ep_prop("C07",
                   ep("limits", 400, 15000, tier, "C07"),
                   dict(family="ep-ideal", n=T(tier, 100, 4000), params={})],
     "handshake: 1..6 (thorough 24) clients connect at once through loss / duplication / delay of handshake frames and targeted loss of the first 0..11 SYNs, SYN-ACKs or ACKs, nonces incl. 0, 2^32-1 and 20-bit wrap values; run twice, the second time with forged frames from spoofed sources (SYN-ACK / ACK / error with nonces that were never issued, verbatim replays of earlier genuine handshake frames incl. SYNs, SYNs for tracked addresses, misdirected frames), followed by an echo of packets of every mode and one of the maximum size. handshake-mismatch: a grid of client/server limits and a raw wrong-version peer. limits (C17's family, run here for its handshake leftovers): more handshakes in flight than the server admits, refusals at SYN time and at activation, refused and disconnected clients coming back from the same address seconds later and staying past every timer of their earlier attempt. ep-ideal: compatible configurations with limits from 3 kB to 2^64-1 must connect, and the SYN / SYN-ACK on the wire must carry each side's configuration capped at 2^32-1. non-trivial: >= 1 forged / duplicated handshake frame reached an endpoint or >= 1 handshake frame lost.",
-    "Wire-level reference check at every Connect (server: an ACK echoing a nonce it sent to that address was delivered; client: a SYN-ACK echoing its SYN nonce was delivered), at every handshake Error event (a matching error frame echoing the nonce was delivered), first data frame ids equal the exchanged nonces, at most one Connect per address, no Disconnect / handshake error on an established connection, refusals carry the right error; every SYN delivered to the server is answered within two steps unless the server has a documented reason to ignore it (a connection of that address reported and open, one ended by Disconnect < 21 s ago, a handshake admitted < 23 s ago), and a Connect rests on a SYN-ACK first sent < 23 s earlier (`syn-ignored-without-reason`, `connect-from-expired-handshake`); after every server call, every address whose connection the server has reported and not ended is still known to Server::client() (`established-connection-untracked`). Twin equality of whole histories was dropped (duplicates legitimately change timing); the invariants run on both runs.",
+    "Completion (the first ACK may be lost): an established client that reads a repeated SYN-ACK of its own server answers with an ACK echoing that server nonce by its next step (`synack-to-established-client-not-acknowledged`); an ACK echoing the nonce of a pending handshake, read by the server within the 22 s the handshake stays pending, leads to Connect or to a refusal (`valid-ack-did-not-complete-handshake`). Wire-level reference check at every Connect (server: an ACK echoing a nonce it sent to that address was delivered; client: a SYN-ACK echoing its SYN nonce was delivered), at every handshake Error event (a matching error frame echoing the nonce was delivered), first data frame ids equal the exchanged nonces, at most one Connect per address, no Disconnect / handshake error on an established connection, refusals carry the right error; every SYN delivered to the server is answered within two steps unless the server has a documented reason to ignore it (a connection of that address reported and open, one ended by Disconnect < 21 s ago, a handshake admitted < 23 s ago), and a Connect rests on a SYN-ACK first sent < 23 s earlier (`syn-ignored-without-reason`, `connect-from-expired-handshake`); after every server call, every address whose connection the server has reported and not ended is still known to Server::client() (`established-connection-untracked`). Twin equality of whole histories was dropped (duplicates legitimately change timing); the invariants run on both runs.",
     "history oracle on handshake wire trace + forged-frame injection",
-    dict(quick=800, thorough=20000), require=["c07_server_connects_checked", "c07_client_connects_checked", "c07_first_data_frames_checked", "replayed_genuine_handshake_frame", "forged_ack_wrong_nonce", "c07_mismatch_cases_checked"])
+    dict(quick=800, thorough=20000), require=["c07_server_connects_checked", "c07_client_connects_checked", "c07_first_data_frames_checked", "replayed_genuine_handshake_frame", "forged_ack_wrong_nonce", "c07_mismatch_cases_checked", "c07_repeated_synacks_to_established_client", "c07_valid_acks_read_by_server"])
 
 ep_prop("C08",
     lambda tier: [ep("lifecycle", 1500, 60000, tier, "C08", max_clients=T(tier, 4, 16)),
@@ -292,9 +296,9 @@ ep_prop("C09",
     lambda tier: [ep("disconnect", 2500, 80000, tier, "C09"),
                   ep("lifecycle", 800, 30000, tier, "C09")],
     "disconnect: one side queues 0..500 packets of all modes (<= 20 kB) and calls disconnect(), with loss / duplication / delay of data, acks, Disconnect and DisconnectAck, blackouts (one or both ways) right after the call, both sides calling in 15 % of the cases; 30 % short sessions (call 50..1900 ms in), 30 % with the first 1..3 DisconnectAcks lost, 35 % ending with zero-length Reliable markers. non-trivial: a flush obligation (Reliable packet queued before the call) was checked, or a Disconnect exchange took place with queued data.",
-    "History check: the peer's Disconnect event comes after the Receive of every Reliable packet submitted before disconnect() (void if the peer disconnected / dropped first, or the caller escalated to disconnect_now / drop); both ends reach a terminal event within 22 s (or their active timeout) + 12 step intervals of the first Disconnect frame (an endpoint whose own request went out later gets the budget of its own request); disconnect_now() puts the request on the wire by the caller's next step; a passively closed peer answers every repeated request delivered to it in the 18 s after its Disconnect event (so a reachable peer never leaves the caller to time out); nothing after the terminal event (C08 automaton).",
+    "History check: the peer's Disconnect event comes after the Receive of every Reliable packet submitted before disconnect() (void if the peer disconnected / dropped first, or the caller escalated to disconnect_now / drop); both ends reach a terminal event within 22 s (or their active timeout) + 12 step intervals of the first Disconnect frame (an endpoint whose own request went out later gets the budget of its own request); disconnect_now() puts the request on the wire by the caller's next step; a passively closed peer answers every repeated request delivered to it in the 18 s after its Disconnect event (so a reachable peer never leaves the caller to time out); an endpoint whose own request is on the wire and which then reads a Disconnect or DisconnectAck from its peer ends with Disconnect, never with Error(Timeout) (`timeout-although-peer-answered`); nothing after the terminal event (C08 automaton).",
     "history oracle on event order and virtual-time budget",
-    dict(quick=800, thorough=20000), require=["c09_flush_obligations_checked", "c09_disconnect_exchanges", "c09_disconnect_now_checked", "c09_repeated_requests_to_lingering_peer", "c09_zero_length_obligations"])
+    dict(quick=800, thorough=20000), require=["c09_flush_obligations_checked", "c09_disconnect_exchanges", "c09_disconnect_now_checked", "c09_repeated_requests_to_lingering_peer", "c09_zero_length_obligations", "c09_disconnect_attempt_timeouts_checked"])
 
 ep_prop("C10",
     lambda tier: [ep("timers", 3000, 100000, tier, "C10")],
@@ -305,10 +309,10 @@ ep_prop("C10",
 
 ep_prop("C17",
     lambda tier: [ep("limits", 2500, 80000, tier, "C17")],
-    "limits: max_active 1..8, max_total up to 16 (in a quarter of the scenarios below max_active: both only have to be positive), 1..40 clients arriving in bursts, staggered or in waves; all first ACKs lost (many SYNs before any ACK), lossy handshakes; connections ended by disconnect from either side, Client drop, Server::drop or silent death (timeout); clients that disconnected come back from the same address 0.1..9 s later and stay; a late wave of max_total+2 handshakes from fresh addresses whose ACKs are all lost arrives 26..48 s in (after the server's 20 s memory of ended connections has expired); finally everything ends and, 50 s later, a fresh client must connect. non-trivial: more clients than max_active and >= 1 connection ended by the script.",
+    "limits: max_active 1..8, max_total up to 16 (in a quarter of the scenarios below max_active: both only have to be positive), 1..40 clients arriving in bursts, staggered or in waves; all first ACKs lost (many SYNs before any ACK), lossy handshakes; connections ended by disconnect from either side (30 % crossing: both applications close at the same moment), Client drop, Server::drop or silent death (timeout); clients that disconnected come back from the same address 0.1..9 s later and stay; a late wave of max_total+2 handshakes from fresh addresses whose ACKs are all lost arrives 26..48 s in (after the server's 20 s memory of ended connections has expired); finally everything ends and, 50 s later, a fresh client must connect. non-trivial: more clients than max_active and >= 1 connection ended by the script.",
     "Counters after every server call: connections between Connect and their terminal event / the server's own Disconnect <= max_active_connections; addresses for which Server::client() is Some <= max_total_connections; ServerFull refusals are mirrored by server error events when enabled; capacity is available again after everything ended. Offline admission check from wire + events only (independent of the server's own table): at every newly admitted handshake (fresh SYN-ACK nonce pair) the established connections plus the handshakes provably in progress (same SYN-ACK repeated later / Connect later) number < max_total_connections; conversely every ServerFull refusal needs a reason: an upper bound of what the server can still hold at that instant (reported and not ended, ended by the peer's Disconnect < 20 s ago, admitted < 22 s ago) must reach a limit (`refused-although-capacity-free`: entries kept beyond their documented lifetime show here).",
     "online counters over the server's event stream and public lookup",
-    dict(quick=1200, thorough=30000), require=["c17_refused_with_serverfull", "c17_capacity_reuse_checked", "c17_connections_ended_by_script", "c17_admissions_checked", "c17_reconnects_from_same_address", "c17_late_wave_handshakes", "c17_refusals_checked"],
+    dict(quick=1200, thorough=30000), require=["c17_refused_with_serverfull", "c17_capacity_reuse_checked", "c17_connections_ended_by_script", "c17_admissions_checked", "c17_reconnects_from_same_address", "c17_late_wave_handshakes", "c17_refusals_checked", "c17_crossing_disconnects"],
     also=["C07:established-connection-untracked"])
 
 ep_prop("C18",
